@@ -2866,3 +2866,147 @@ func ruleR74(c *Ctx) {
 		})
 	}
 }
+
+// ---- R76: atomic counter pairing; R77: completion verdict ----
+
+func init() {
+	register(&Rule{ID: "R76", Title: "counter pairing: a deferred decrement of an atomic activity counter is preceded by the matching increment in the same goroutine, and an increment is released on every exit", Min: 2, Run: ruleR76})
+	register(&Rule{ID: "R77", Title: "completion verdict: WaitUntilComplete answers false in the clause that saw the caller's context end and true only in the clause that saw completion", Min: 2, Run: ruleR77})
+}
+
+func atomicAddDelta(in *types.Info, call *ast.CallExpr) (x ast.Expr, sign int) {
+	fn := callee(in, call)
+	if fn == nil || fn.Pkg() == nil || fn.Pkg().Path() != "sync/atomic" || fn.Name() != "Add" || len(call.Args) != 1 {
+		return nil, 0
+	}
+	s, ok := unparen(call.Fun).(*ast.SelectorExpr)
+	if !ok {
+		return nil, 0
+	}
+	tv := in.Types[call.Args[0]]
+	if tv.Value == nil {
+		return nil, 0
+	}
+	v := tv.Value.ExactString()
+	if strings.HasPrefix(v, "-") {
+		return s.X, -1
+	}
+	return s.X, 1
+}
+
+func ruleR76(c *Ctx) {
+	p := c.P
+	what := "the number of requests in flight (which Cancel and the boundary logic read) is only right when every goroutine that counts itself in also counts itself out exactly once, and never counts out without having counted in"
+	for _, f := range p.Funcs {
+		if f.Pkg.PkgPath != pathBpmn || f.Body == nil {
+			continue
+		}
+		in := info(f)
+		g := p.Graph(f)
+		inspectNoLit(f.Body, func(n ast.Node) bool {
+			call, ok := n.(*ast.CallExpr)
+			if !ok {
+				return true
+			}
+			x, sign := atomicAddDelta(in, call)
+			if sign == 0 {
+				return true
+			}
+			_, deferred := p.Parent(call).(*ast.DeferStmt)
+			var node ast.Node = call
+			for node != nil {
+				if _, ok := g.PointOf(node); ok {
+					break
+				}
+				node = p.Parent(node)
+			}
+			if node == nil {
+				return true
+			}
+			pt, _ := g.PointOf(node)
+			same := func(nd ast.Node, want int) bool {
+				return nodeHasCall(p, nd, func(c2 *ast.CallExpr) bool {
+					x2, s2 := atomicAddDelta(in, c2)
+					return s2 == want && sameRef(in, x2, x)
+				})
+			}
+			if sign < 0 {
+				// a matching increment dominates the decrement
+				found := false
+				for _, q := range g.AllPoints() {
+					if q != pt && same(q.Node(), 1) {
+						if _, isDefer := q.Node().(*ast.DeferStmt); !isDefer && g.Dominates(q, pt) {
+							found = true
+						}
+					}
+				}
+				c.Check(found, f, call, ifElse(deferred, "deferred ", "")+"decrement of "+exprString(x), what, ifElse(found, "an increment of the same counter dominates it", "no increment of the same counter precedes it in this goroutine"))
+			} else {
+				bad := g.MustPassBeforeExit(pt, false, func(nd ast.Node) bool { return same(nd, -1) })
+				c.Check(len(bad) == 0, f, call, "increment of "+exprString(x), what, ifElse(len(bad) == 0, "every exit passes the matching decrement (defer or explicit)", "an exit is reached without the matching decrement: "+witnessLines(g, bad[:min(1, len(bad))])))
+			}
+			return true
+		})
+	}
+}
+
+func ruleR77(c *Ctx) {
+	p := c.P
+	what := "WaitUntilComplete returns true iff the instance (set) completed; the clause of its select that saw the caller's context end must answer false, and only the clause that received the completion signal may answer true"
+	for _, f := range p.Funcs {
+		if f.Obj == nil || f.Obj.Name() != "WaitUntilComplete" || f.Pkg.PkgPath != pathBpmn || f.Body == nil {
+			continue
+		}
+		in := info(f)
+		var res *types.Var
+		if f.Decl.Type.Results != nil && len(f.Decl.Type.Results.List) == 1 && len(f.Decl.Type.Results.List[0].Names) == 1 {
+			res, _ = in.Defs[f.Decl.Type.Results.List[0].Names[0]].(*types.Var)
+		}
+		inspectNoLit(f.Body, func(n ast.Node) bool {
+			cc, ok := n.(*ast.CommClause)
+			if !ok || cc.Comm == nil {
+				return true
+			}
+			isDone := isDoneComm(p, f, cc.Comm)
+			// ps.done is a completion signal, not the caller's context: only ctx.Done() counts as "ended"
+			ctxDone := exprMentionsAny(cc.Comm, func(z ast.Node) bool {
+				e, ok := z.(ast.Expr)
+				return ok && isCtxDoneCall(in, e)
+			})
+			_ = isDone
+			verdicts := []string{}
+			for _, st := range cc.Body {
+				inspectNoLit(st, func(z ast.Node) bool {
+					switch y := z.(type) {
+					case *ast.AssignStmt:
+						for i, l := range y.Lhs {
+							if id, ok := l.(*ast.Ident); ok && res != nil && objOf(in, id) == types.Object(res) && i < len(y.Rhs) {
+								verdicts = append(verdicts, exprString(y.Rhs[i]))
+							}
+						}
+					case *ast.ReturnStmt:
+						for _, e := range y.Results {
+							verdicts = append(verdicts, exprString(e))
+						}
+					}
+					return true
+				})
+			}
+			want := "true"
+			if ctxDone {
+				want = "false"
+			}
+			okV := len(verdicts) > 0
+			if ctxDone && len(verdicts) == 0 {
+				okV = true // the named result keeps its zero value
+			}
+			for _, v := range verdicts {
+				if v != want {
+					okV = false
+				}
+			}
+			c.Check(okV, f, cc, ifElse(ctxDone, "verdict in the context-ended clause", "verdict in the completion clause"), what, fmt.Sprintf("verdicts assigned/returned in the clause: %v, expected %s", verdicts, want))
+			return true
+		})
+	}
+}
